@@ -143,6 +143,38 @@ program!(lat_cam16_xyz_box, "C16", "quick", l,
     T::ensure("jmh.round_trip_where_defined", close(Cam16Jmh::from_xyz(c, baked).into_xyz(baked)));
     T::ensure("qsh.round_trip_where_defined", close(Cam16Qsh::from_xyz(c, baked).into_xyz(baked)));
 });
+
+macro_rules! cam16_forward_box {
+    ($name:ident, $guard:expr, $what:expr) => {
+        program!($name, "C07", "quick", l,
+            "Cam16::from_xyz -> cam16::math::{xyz_to_cam16, Adapt::run} [cam16/math.rs]; achromatic response rebuilt from the REAL cone response compression (hook verif_adapt, verif_dependent)",
+            $what,
+        {
+            let (x, y, z) = (T::var("x", 0.0, 0.95047), T::var("y", 0.0, 1.0), T::var("z", 0.0, 1.08883));
+            let c: Xyz<D65, T> = Xyz::new(x, y, z);
+            let p: Parameters<StaticWp<D65>, T> = Parameters::default_static_wp(T::k(40.0));
+            let baked = p.bake();
+            let f = baked.verif_dependent();
+            let (r0, g0, b0) = crate::specs::cam16_m16(x * T::k(100.0), y * T::k(100.0), z * T::k(100.0));
+            let (ra, ga, ba) = (baked.verif_adapt(r0 * f[0]), baked.verif_adapt(g0 * f[1]), baked.verif_adapt(b0 * f[2]));
+            // achromatic response A = N_bb (2 R'_a + G'_a + 0.05 B'_a): the lightness is a real power of A / A_w
+            let big_a = f[7] * (T::k(2.0) * ra + ga + T::k(0.05) * ba);
+            let full: Cam16<T> = Cam16::from_xyz(c, baked);
+            let fin = conj::<T>(&[finite(full.lightness), finite(full.chroma), finite(full.hue.into_raw_degrees()), finite(full.brightness), finite(full.colorfulness), finite(full.saturation)]);
+            let guard: bool = $guard;
+            if guard {
+                // NaN-safe: a non-finite A (e.g. a NaN cone response) does NOT satisfy `A < 0`, so it must come with finite outputs
+                T::ensure("finite_where_achromatic_response_not_negative", T::p_or(T::p_lt(&big_a, &T::k(0.0)), fin));
+            } else {
+                T::ensure("finite_on_whole_box", fin);
+            }
+        });
+    };
+}
+cam16_forward_box!(lat_cam16_forward_finite_where_defined, true,
+    "average surround, every XYZ colour of the white-point box (Y = 0 face and colours outside the spectral locus with NEGATIVE cone responses included): whenever the achromatic response A is not negative, all six CAM16 correlates and the hue are finite");
+cam16_forward_box!(lat_cam16_forward_whole_xyz_box, false,
+    "KNOWN FINDING region: the same on the WHOLE box - for in-range XYZ colours whose achromatic response is negative (non-physical colours near the Z axis, e.g. XYZ = (0, 0, 1.08883) or (0, 0.001, 0.27)) the lightness is a real power of a negative number: NaN");
 cam16_rt!(lat_cam16_average, Surround::Average, "average surround");
 cam16_rt!(lat_cam16_dim, Surround::Dim, "dim surround");
 cam16_rt!(lat_cam16_dark, Surround::Dark, "dark surround");
@@ -177,5 +209,5 @@ cam16_forward!(lat_cam16_forward_dark, Surround::Dark, (0.525, 0.8, 0.8), "dark 
 
 pub fn all() -> Vec<crate::Prog> {
     vec![lat_ok_cylinders_from_oklab::prog(), lat_ok_cylinders_to_oklab::prog(), lat_ok_from_rgb::prog(), lat_hsluv::prog(),
-         lat_cam16_average::prog(), lat_cam16_xyz_box::prog(), lat_cam16_dim::prog(), lat_cam16_dark::prog(), lat_cam16_forward_average::prog(), lat_cam16_forward_dim::prog(), lat_cam16_forward_dark::prog()]
+         lat_cam16_average::prog(), lat_cam16_xyz_box::prog(), lat_cam16_forward_finite_where_defined::prog(), lat_cam16_forward_whole_xyz_box::prog(), lat_cam16_dim::prog(), lat_cam16_dark::prog(), lat_cam16_forward_average::prog(), lat_cam16_forward_dim::prog(), lat_cam16_forward_dark::prog()]
 }
